@@ -90,6 +90,18 @@ def enumerate_cases(tier):
     for mode in ("rational", "poly"):
         for tr in trees:
             yield {"mode": mode, "tree": tr, "final_div": False, "tiny": False}
+    # every exponent 5..20 (powers are built along addition chains; code generation uses x**7 for the iterative inverse):
+    # a monomial, a binomial, a trinomial for the small ones, and negative powers of a fraction
+    A, B = ["var", "a"], ["lin", ["a", "b1"], 1]
+    for n_ in range(5, 21):
+        for mode in ("rational", "poly"):
+            yield {"mode": mode, "tree": ["pow", A, n_], "final_div": False, "tiny": False, "nocap": True}
+            if n_ <= 14:
+                yield {"mode": mode, "tree": ["pow", B, n_], "final_div": False, "tiny": False, "nocap": True}
+            if n_ <= 8:
+                yield {"mode": mode, "tree": ["pow", ["lin", ["a", "a12", "b"], 0], n_], "final_div": False, "tiny": False, "nocap": True}
+        if n_ <= 14:
+            yield {"mode": "rational", "tree": ["pow", ["div", A, ["lin", ["a", "b"], 0]], -n_], "final_div": False, "tiny": False, "nocap": True}
 
 
 # ---------------------------------------------------------------------------------------------------------------------
@@ -329,7 +341,7 @@ def evaluate(case):
     Polynomial, RationalPolynomial = _kclasses()
     nodes = []
     dg, tm = _size_bound(case["tree"])
-    if dg > 24 or tm > 4000:
+    if (dg > 24 or tm > 4000) and not case.get("nocap"):
         # cost cap (stated in evidence): e.g. ((I+a+a1)**4)**4)**4 has 2145 terms of degree 64 and takes nine minutes
         return Info(False, ["skipped:too-large"], None, {"skipped:too-large": 1})
     try:
